@@ -1,5 +1,5 @@
 """C04 -- the validity verdict is False exactly when the csvpath failed the file."""
-from . import core, shared, control, C05
+from . import core, shared, control, C05, managers
 USES = ["shared"]
 
 
@@ -9,7 +9,7 @@ def contracts():
     cr = [c for c in core.contracts() if c.interface or getattr(c, "_foreign", False) or c.ident in keep]
     ct = [c for c in control.contracts() if c.interface or c.ident in ("Fail._decide_match", "FailAll._decide_match", "Failed._decide_match",
                                                                         "Stopper._stop_me", "Stop._decide_match")]
-    return c05 + cr + ct
+    return c05 + cr + ct + managers.contracts()
 
 
 LEVEL = "other"
